@@ -103,6 +103,14 @@ SinkFails ==
     /\ failed' = TRUE /\ ws' = "error"
     /\ UNCHANGED <<pending, accepted, items, frames, done>>
 
+\* Flush - alone or as the first half of Close - reports a sink failure but, unlike the other calls,
+\* does not put the Writer into its error state (writer.go: Flush has no state check): the pending
+\* bytes stay pending and the next call tries again.  C15 only asks that the failure be reported.
+FlushFails ==
+    /\ ws \in {"new", "write"} /\ ~failed
+    /\ failed' = TRUE
+    /\ UNCHANGED <<ws, pending, accepted, items, frames, done>>
+
 \* ---- properties -----------------------------------------------------------
 IsBlock(x) == x >= 0
 
